@@ -36,21 +36,37 @@ type jop struct {
 	Roi   [][4]int32 `json:"roi,omitempty"` // spans of the ROI used by this request
 	Att   int        `json:"att,omitempty"` // ?attenuation=n (reads through an ROI)
 	Mut   bool       `json:"mutate,omitempty"`
-	Iso   bool       `json:"iso,omitempty"` // the isotropic endpoint (instances have isotropic voxels)
+	Iso   bool       `json:"iso,omitempty"`      // the isotropic endpoint (instances have isotropic voxels)
+	REmp  bool       `json:"roiempty,omitempty"` // the request names an ROI that holds no span
+	Fill  string     `json:"fill,omitempty"`     // posted data: "" pattern(pat) | zero | bg | const | single
 	Req   [][3]int32 `json:"req,omitempty"`
 }
 
+// vnode: one version of a DAG history.  Its parent is committed when the node is created (as the
+// next version of the parent's branch, or on a new branch); Ops run when the node's turn comes (Seq
+// order), Obs (reads, extents) run at the very end, after every version has done its writes.
+type vnode struct {
+	Parent int   `json:"parent"`
+	Child  bool  `json:"child,omitempty"`
+	Ops    []jop `json:"ops,omitempty"`  // run when the node is created
+	Late   []jop `json:"late,omitempty"` // leaves only: run after all nodes exist, one at a time in LateSeq order
+	Obs    []jop `json:"obs,omitempty"`
+}
+
 type jcase struct {
-	Kind   string  `json:"kind"`
-	Type   string  `json:"type,omitempty"`
-	BS     []int32 `json:"bs"`
-	BG     int     `json:"bg"`
-	Ops    []jop   `json:"ops,omitempty"`
-	Stride int32   `json:"stride,omitempty"`
-	Block  []int32 `json:"block,omitempty"`
-	Bpv    int32   `json:"bpv,omitempty"`
-	Att    int     `json:"att,omitempty"`
-	G      *jop    `json:"g,omitempty"`
+	Kind    string  `json:"kind"`
+	Type    string  `json:"type,omitempty"`
+	BS      []int32 `json:"bs"`
+	BG      int     `json:"bg"`
+	Ops     []jop   `json:"ops,omitempty"`
+	Nodes   []vnode `json:"nodes,omitempty"`   // a version DAG: node 0 is the root and runs Ops first
+	Only    int     `json:"only,omitempty"`    // replay: emit only this version (1-based); 0 = all
+	LateSeq []int   `json:"lateseq,omitempty"` // node whose next Late op runs, in time order
+	Stride  int32   `json:"stride,omitempty"`
+	Block   []int32 `json:"block,omitempty"`
+	Bpv     int32   `json:"bpv,omitempty"`
+	Att     int     `json:"att,omitempty"`
+	G       *jop    `json:"g,omitempty"`
 }
 
 var bpvOf = map[string]int32{"uint8blk": 1, "uint16blk": 2, "uint32blk": 4, "uint64blk": 8, "float32blk": 4, "rgba8blk": 4}
@@ -121,11 +137,51 @@ func pattern(a, s int32, n int) []byte {
 	}
 	return out
 }
+
+// postData: the bytes a write posts and their Coq term
+func postData(o jop, n int, bpv int32, bgvox []byte) ([]byte, string) {
+	switch o.Fill {
+	case "zero":
+		b := make([]byte, n)
+		return b, cbytes(b)
+	case "bg": // every voxel the background voxel
+		b := make([]byte, 0, n)
+		for len(b) < n {
+			b = append(b, bgvox...)
+		}
+		return b, fmt.Sprintf("(tile %s%%N %d%%nat)", lib.CoqBytes(bgvox), n/len(bgvox))
+	case "const":
+		b := bytes.Repeat([]byte{byte(o.Pat[0]%251 + 1)}, n)
+		return b, cbytes(b)
+	case "single": // background everywhere but one voxel
+		b := make([]byte, 0, n)
+		for len(b) < n {
+			b = append(b, bgvox...)
+		}
+		k := (int(o.Pat[0]) * 7919 % (n / int(bpv))) * int(bpv)
+		for i := 0; i < int(bpv); i++ {
+			b[k+i] = byte(o.Pat[1]%250 + 1)
+		}
+		return b, cbytes(b)
+	}
+	return pattern(o.Pat[0], o.Pat[1], n), cpat(o.Pat[0], o.Pat[1], n)
+}
+
+func roiSpans(o jop) [][4]int32 {
+	if o.REmp {
+		return [][4]int32{}
+	}
+	return o.Roi
+}
+
 func cpat(a, s int32, n int) string { return fmt.Sprintf("(pat %d %d %d)", a, s, n) }
 
 func cspans(sp [][4]int32) string {
 	if sp == nil {
 		return "None"
+	}
+	if len(sp) == 0 {
+		return "(Some [])"
 	}
 	ss := make([]string, len(sp))
 	for i, q := range sp {
@@ -224,7 +280,7 @@ func parseBlocks(body []byte) ([]string, bool) {
 var run *lib.Run
 
 // histTerm runs one history on a fresh instance and returns its Coq term and distribution counters
-func histTerm(c jcase) (string, []string) {
+func histTerms(c jcase) ([]string, []string) {
 	var counts []string
 	count := func(k string) { counts = append(counts, k) }
 	open()
@@ -241,7 +297,7 @@ func histTerm(c jcase) (string, []string) {
 		fmt.Fprintln(os.Stderr, err)
 		os.Exit(2)
 	}
-	base := "/api/node/" + repoUUID + "/" + name
+	bgvox := bgPattern(c.Type, c.BG)
 	roiNames := map[string]string{}
 	roiOf := func(sp [][4]int32) string {
 		if sp == nil {
@@ -257,6 +313,9 @@ func histTerm(c jcase) (string, []string) {
 			os.Exit(2)
 		}
 		body, _ := json.Marshal(sp)
+		if len(sp) == 0 {
+			body = []byte("[]")
+		}
 		if r := dv.Post("/api/node/"+repoUUID+"/"+rn+"/roi", body); r.Status != 200 {
 			fmt.Fprintln(os.Stderr, "cannot post roi", r.Status, string(r.Body))
 			os.Exit(2)
@@ -289,140 +348,220 @@ func histTerm(c jcase) (string, []string) {
 		}
 		return "(Ok " + cbytes(b) + ")"
 	}
-	var terms []string
+	// the ROIs every version will name are made at the root while it is still open
+	nodes := c.Nodes
+	if len(nodes) == 0 {
+		nodes = []vnode{{Parent: -1}}
+	}
+	allOps := append([]jop{}, c.Ops...)
+	for _, nd := range nodes {
+		allOps = append(append(append(allOps, nd.Ops...), nd.Late...), nd.Obs...)
+	}
+	for _, o := range allOps {
+		roiOf(roiSpans(o))
+	}
 	poisoned := false
-	for _, o := range c.Ops {
-		if poisoned {
-			break
-		}
-		count("op:" + o.Op)
-		switch o.Op {
-		case "postraw":
-			n := int(o.Size[0]) * int(o.Size[1]) * int(o.Size[2]) * int(bpv)
-			data := pattern(o.Pat[0], o.Pat[1], n)
-			r := dv.Post(fmt.Sprintf("%s/raw/0_1_2/%d_%d_%d/%d_%d_%d%s", base, o.Size[0], o.Size[1], o.Size[2], o.Off[0], o.Off[1], o.Off[2], q(roiOf(o.Roi), 0, o.Mut)), data)
-			terms = append(terms, fmt.Sprintf("OPostRaw %s %s %s %s %s", cpt(o.Off), cpt(o.Size), cpat(o.Pat[0], o.Pat[1], n), cspans(o.Roi), lib.CoqBool(r.Status == 200)))
-			if o.Roi != nil {
-				count("write:roi")
+	runOps := func(uuid string, ops []jop) []string {
+		base := "/api/node/" + uuid + "/" + name
+		var terms []string
+		for _, o := range ops {
+			if poisoned {
+				break
 			}
-			if o.Mut {
-				count("write:mutate")
-			}
-		case "getraw":
-			var url string
-			ep := "raw"
-			if o.Iso {
-				ep = "isotropic"
-				count("read:isotropic")
-			}
-			if o.Att != 0 {
-				count("read:attenuation")
-			}
-			if o.Shape == "0_1_2" {
-				url = fmt.Sprintf("%s/%s/0_1_2/%d_%d_%d/%d_%d_%d%s", base, ep, o.Size[0], o.Size[1], o.Size[2], o.Off[0], o.Off[1], o.Off[2], q(roiOf(o.Roi), o.Att, false))
-			} else {
-				url = fmt.Sprintf("%s/%s/%s/%d_%d/%d_%d_%d%s", base, ep, o.Shape, o.Size[0], o.Size[1], o.Off[0], o.Off[1], o.Off[2], q(roiOf(o.Roi), o.Att, false))
-			}
-			r := dv.Get(url)
-			body, ok := r.Body, r.Status == 200
-			if ok && o.Shape != "0_1_2" {
-				b, err := decodeSlice(r.Body, int(o.Size[0]), int(o.Size[1]), bpv)
-				if err != nil {
-					ok = false
+			count("op:" + o.Op)
+			switch o.Op {
+			case "postraw":
+				n := int(o.Size[0]) * int(o.Size[1]) * int(o.Size[2]) * int(bpv)
+				data, dterm := postData(o, n, bpv, bgvox)
+				r := dv.Post(fmt.Sprintf("%s/raw/0_1_2/%d_%d_%d/%d_%d_%d%s", base, o.Size[0], o.Size[1], o.Size[2], o.Off[0], o.Off[1], o.Off[2], q(roiOf(roiSpans(o)), 0, o.Mut)), data)
+				terms = append(terms, fmt.Sprintf("OPostRaw %s %s %s %s %s", cpt(o.Off), cpt(o.Size), dterm, cspans(roiSpans(o)), lib.CoqBool(r.Status == 200)))
+				if roiSpans(o) != nil {
+					count("write:roi")
 				}
-				body = b
-			}
-			count("read:" + o.Shape)
-			// ServeHTTP parses ?attenuation into a struct it never hands to GetVoxels: over HTTP the
-			// parameter has no effect (blocks outside the ROI read as background), so the term says 0
-			terms = append(terms, fmt.Sprintf("OGetRaw %s %s 0 %s", cgeom(o), cspans(o.Roi), resBytes(r, body, ok)))
-		case "postblocks":
-			n := int(bs[0]) * int(bs[1]) * int(bs[2]) * int(bpv) * int(o.Span)
-			data := pattern(o.Pat[0], o.Pat[1], n)
-			r := dv.Post(fmt.Sprintf("%s/blocks/%d_%d_%d/%d%s", base, o.Off[0], o.Off[1], o.Off[2], o.Span, q("", 0, o.Mut)), data)
-			terms = append(terms, fmt.Sprintf("OPostBlocks %s %d %s %s", cpt(o.Off), o.Span, cpat(o.Pat[0], o.Pat[1], n), lib.CoqBool(r.Status == 200)))
-			// read the blocks back at once: a lost POST must not be followed by reads that would
-			// index into the short blocks it stored (that panics inside a server goroutine)
-			g := dv.Get(fmt.Sprintf("%s/blocks/%d_%d_%d/%d", base, o.Off[0], o.Off[1], o.Off[2], o.Span))
-			terms = append(terms, fmt.Sprintf("OGetBlocks %s %d %s", cpt(o.Off), o.Span, resBytes(g, g.Body, g.Status == 200)))
-			if r.Status == 200 && !bytes.Equal(g.Body, data) {
-				poisoned = true
-				count("postblocks:lost")
-			}
-		case "getblocks":
-			r := dv.Get(fmt.Sprintf("%s/blocks/%d_%d_%d/%d", base, o.Off[0], o.Off[1], o.Off[2], o.Span))
-			terms = append(terms, fmt.Sprintf("OGetBlocks %s %d %s", cpt(o.Off), o.Span, resBytes(r, r.Body, r.Status == 200)))
-		case "subvol":
-			r := dv.Get(fmt.Sprintf("%s/subvolblocks/%d_%d_%d/%d_%d_%d?compression=uncompressed", base, o.Size[0], o.Size[1], o.Size[2], o.Off[0], o.Off[1], o.Off[2]))
-			var req []string
-			for zz := o.Off[2] / bs[2]; zz < (o.Off[2]+o.Size[2])/bs[2]; zz++ {
-				for y := o.Off[1] / bs[1]; y < (o.Off[1]+o.Size[1])/bs[1]; y++ {
-					for x := o.Off[0] / bs[0]; x < (o.Off[0]+o.Size[0])/bs[0]; x++ {
-						req = append(req, cpt([]int32{x, y, zz}))
+				if o.Fill != "" {
+					count("write:fill-" + o.Fill)
+				}
+				if o.Mut {
+					count("write:mutate")
+				}
+			case "getraw":
+				var url string
+				ep := "raw"
+				if o.Iso {
+					ep = "isotropic"
+					count("read:isotropic")
+				}
+				if o.Att != 0 {
+					count("read:attenuation")
+				}
+				if o.Shape == "0_1_2" {
+					url = fmt.Sprintf("%s/%s/0_1_2/%d_%d_%d/%d_%d_%d%s", base, ep, o.Size[0], o.Size[1], o.Size[2], o.Off[0], o.Off[1], o.Off[2], q(roiOf(roiSpans(o)), o.Att, false))
+				} else {
+					url = fmt.Sprintf("%s/%s/%s/%d_%d/%d_%d_%d%s", base, ep, o.Shape, o.Size[0], o.Size[1], o.Off[0], o.Off[1], o.Off[2], q(roiOf(roiSpans(o)), o.Att, false))
+				}
+				r := dv.Get(url)
+				body, ok := r.Body, r.Status == 200
+				if ok && o.Shape != "0_1_2" {
+					b, err := decodeSlice(r.Body, int(o.Size[0]), int(o.Size[1]), bpv)
+					if err != nil {
+						ok = false
+					}
+					body = b
+				}
+				count("read:" + o.Shape)
+				// ServeHTTP parses ?attenuation into a struct it never hands to GetVoxels: over HTTP the
+				// parameter has no effect (blocks outside the ROI read as background), so the term says 0
+				terms = append(terms, fmt.Sprintf("OGetRaw %s %s 0 %s", cgeom(o), cspans(roiSpans(o)), resBytes(r, body, ok)))
+			case "postblocks":
+				n := int(bs[0]) * int(bs[1]) * int(bs[2]) * int(bpv) * int(o.Span)
+				data, dterm := postData(o, n, bpv, bgvox)
+				r := dv.Post(fmt.Sprintf("%s/blocks/%d_%d_%d/%d%s", base, o.Off[0], o.Off[1], o.Off[2], o.Span, q("", 0, o.Mut)), data)
+				terms = append(terms, fmt.Sprintf("OPostBlocks %s %d %s %s", cpt(o.Off), o.Span, dterm, lib.CoqBool(r.Status == 200)))
+				// read the blocks back at once: a lost POST must not be followed by reads that would
+				// index into the short blocks it stored (that panics inside a server goroutine)
+				g := dv.Get(fmt.Sprintf("%s/blocks/%d_%d_%d/%d", base, o.Off[0], o.Off[1], o.Off[2], o.Span))
+				terms = append(terms, fmt.Sprintf("OGetBlocks %s %d %s", cpt(o.Off), o.Span, resBytes(g, g.Body, g.Status == 200)))
+				if r.Status == 200 && !bytes.Equal(g.Body, data) {
+					poisoned = true
+					count("postblocks:lost")
+				}
+			case "getblocks":
+				r := dv.Get(fmt.Sprintf("%s/blocks/%d_%d_%d/%d", base, o.Off[0], o.Off[1], o.Off[2], o.Span))
+				terms = append(terms, fmt.Sprintf("OGetBlocks %s %d %s", cpt(o.Off), o.Span, resBytes(r, r.Body, r.Status == 200)))
+			case "subvol":
+				r := dv.Get(fmt.Sprintf("%s/subvolblocks/%d_%d_%d/%d_%d_%d?compression=uncompressed", base, o.Size[0], o.Size[1], o.Size[2], o.Off[0], o.Off[1], o.Off[2]))
+				var req []string
+				for zz := o.Off[2] / bs[2]; zz < (o.Off[2]+o.Size[2])/bs[2]; zz++ {
+					for y := o.Off[1] / bs[1]; y < (o.Off[1]+o.Size[1])/bs[1]; y++ {
+						for x := o.Off[0] / bs[0]; x < (o.Off[0]+o.Size[0])/bs[0]; x++ {
+							req = append(req, cpt([]int32{x, y, zz}))
+						}
 					}
 				}
-			}
-			blks, ok := parseBlocks(r.Body)
-			t := "Err"
-			if r.Class() == "panic" {
-				t = "Panic"
-			} else if r.Status == 200 && ok {
-				t = "(Ok [" + strings.Join(blks, ";") + "])"
-			}
-			terms = append(terms, fmt.Sprintf("OStored true [%s] %s", strings.Join(req, ";"), t))
-		case "specific":
-			var qs, req []string
-			for _, b := range o.Req {
-				qs = append(qs, fmt.Sprintf("%d,%d,%d", b[0], b[1], b[2]))
-				req = append(req, cpt(b[:]))
-			}
-			r := dv.Get(fmt.Sprintf("%s/specificblocks?compression=uncompressed&blocks=%s", base, strings.Join(qs, ",")))
-			blks, ok := parseBlocks(r.Body)
-			t := "Err"
-			if r.Class() == "panic" {
-				t = "Panic"
-			} else if r.Status == 200 && ok {
-				t = "(Ok [" + strings.Join(blks, ";") + "])"
-			}
-			terms = append(terms, fmt.Sprintf("OStored false [%s] %s", strings.Join(req, ";"), t))
-		case "extents":
-			r := dv.Get(base + "/info")
-			var info struct {
-				Extents struct {
-					MinPoint []int32
-					MaxPoint []int32
+				blks, ok := parseBlocks(r.Body)
+				t := "Err"
+				if r.Class() == "panic" {
+					t = "Panic"
+				} else if r.Status == 200 && ok {
+					t = "(Ok [" + strings.Join(blks, ";") + "])"
 				}
-			}
-			t := "None"
-			if r.Status == 200 && json.Unmarshal(r.Body, &info) == nil && len(info.Extents.MinPoint) == 3 && len(info.Extents.MaxPoint) == 3 {
-				t = fmt.Sprintf("(Some (%s, %s))", cpt(info.Extents.MinPoint), cpt(info.Extents.MaxPoint))
-			}
-			// the metadata endpoint must advertise the same box
-			m := dv.Get(base + "/metadata")
-			var md struct {
-				Properties struct {
-					MinPoint []int32
-					MaxPoint []int32
+				terms = append(terms, fmt.Sprintf("OStored true [%s] %s", strings.Join(req, ";"), t))
+			case "specific":
+				var qs, req []string
+				for _, b := range o.Req {
+					qs = append(qs, fmt.Sprintf("%d,%d,%d", b[0], b[1], b[2]))
+					req = append(req, cpt(b[:]))
 				}
-			}
-			if m.Status == 200 && json.Unmarshal(m.Body, &md) == nil && len(info.Extents.MinPoint) == 3 {
-				if fmt.Sprint(md.Properties.MinPoint) != fmt.Sprint(info.Extents.MinPoint) || fmt.Sprint(md.Properties.MaxPoint) != fmt.Sprint(info.Extents.MaxPoint) {
-					t = "(Some ((0, 0, 0), (-1, -1, -1)))"
+				r := dv.Get(fmt.Sprintf("%s/specificblocks?compression=uncompressed&blocks=%s", base, strings.Join(qs, ",")))
+				blks, ok := parseBlocks(r.Body)
+				t := "Err"
+				if r.Class() == "panic" {
+					t = "Panic"
+				} else if r.Status == 200 && ok {
+					t = "(Ok [" + strings.Join(blks, ";") + "])"
 				}
+				terms = append(terms, fmt.Sprintf("OStored false [%s] %s", strings.Join(req, ";"), t))
+			case "extents":
+				r := dv.Get(base + "/info")
+				var info struct {
+					Extents struct {
+						MinPoint []int32
+						MaxPoint []int32
+					}
+				}
+				t := "None"
+				if r.Status == 200 && json.Unmarshal(r.Body, &info) == nil && len(info.Extents.MinPoint) == 3 && len(info.Extents.MaxPoint) == 3 {
+					t = fmt.Sprintf("(Some (%s, %s))", cpt(info.Extents.MinPoint), cpt(info.Extents.MaxPoint))
+				}
+				// the metadata endpoint must advertise the same box
+				m := dv.Get(base + "/metadata")
+				var md struct {
+					Properties struct {
+						MinPoint []int32
+						MaxPoint []int32
+					}
+				}
+				if m.Status == 200 && json.Unmarshal(m.Body, &md) == nil && len(info.Extents.MinPoint) == 3 {
+					if fmt.Sprint(md.Properties.MinPoint) != fmt.Sprint(info.Extents.MinPoint) || fmt.Sprint(md.Properties.MaxPoint) != fmt.Sprint(info.Extents.MaxPoint) {
+						t = "(Some ((0, 0, 0), (-1, -1, -1)))"
+					}
+				}
+				terms = append(terms, "OExtents "+t)
 			}
-			terms = append(terms, "OExtents "+t)
+		}
+		return terms
+	}
+	// play the DAG: the root runs c.Ops and its own Ops; every other node is created from its
+	// (then committed) parent and runs its Ops; afterwards every node runs its Obs
+	uuids := make([]string, len(nodes))
+	written := make([][]string, len(nodes)) // terms of the node's own write phase
+	committed := make([]bool, len(nodes))
+	uuids[0] = repoUUID
+	written[0] = append(runOps(repoUUID, c.Ops), runOps(repoUUID, nodes[0].Ops)...)
+	for i := 1; i < len(nodes); i++ {
+		pa := nodes[i].Parent
+		if !committed[pa] {
+			dv.Commit(uuids[pa])
+			committed[pa] = true
+		}
+		var r dv.Resp
+		if nodes[i].Child {
+			uuids[i], r = dv.NewVersion(uuids[pa])
+		} else {
+			uuids[i], r = dv.Branch(uuids[pa], fmt.Sprintf("%sb%d", name, i))
+		}
+		if uuids[i] == "" {
+			fmt.Fprintln(os.Stderr, "cannot create version", r.Status, string(r.Body))
+			os.Exit(2)
+		}
+		written[i] = runOps(uuids[i], nodes[i].Ops)
+	}
+	// the open leaves go on writing, interleaved
+	next := make([]int, len(nodes))
+	for _, i := range c.LateSeq {
+		if i < len(nodes) && next[i] < len(nodes[i].Late) && !committed[i] {
+			written[i] = append(written[i], runOps(uuids[i], nodes[i].Late[next[i]:next[i]+1])...)
+			next[i]++
 		}
 	}
-	term := fmt.Sprintf("(KHist %s [\n    %s])", ccfg(bs, bpv, c.BG, bgPattern(c.Type, c.BG)), strings.Join(terms, ";\n    "))
+	var out []string
+	for i := range nodes {
+		obs := runOps(uuids[i], nodes[i].Obs)
+		// what this version sees: the write phases of its ancestors, oldest first, then its own
+		var chain []int
+		for j := i; j >= 0; j = nodes[j].Parent {
+			chain = append([]int{j}, chain...)
+			if j == 0 {
+				break
+			}
+		}
+		var terms []string
+		for _, j := range chain {
+			terms = append(terms, written[j]...)
+		}
+		terms = append(terms, obs...)
+		out = append(out, fmt.Sprintf("(KHist %s [\n    %s])", ccfg(bs, bpv, c.BG, bgvox), strings.Join(terms, ";\n    ")))
+	}
 	count("type:" + c.Type)
 	count(fmt.Sprintf("background:%v", c.BG != 0))
-	return term, counts
+	if len(nodes) > 1 {
+		count(fmt.Sprintf("dag:versions:%d", len(nodes)))
+	}
+	return out, counts
 }
 
 // runHist runs the history in a child process: an index error inside a server goroutine cannot be
 // recovered and would otherwise take the whole run down; a crashed child is reported as KCrash.
 func runHist(c jcase) {
-	key := fmt.Sprintf("hist/%s/%v/%d/%d/%v", c.Type, c.BS, c.BG, len(c.Ops), c.Ops[0].Off)
+	nver := len(c.Nodes)
+	if nver == 0 {
+		nver = 1
+	}
+	first := jop{Off: []int32{0, 0, 0}}
+	if len(c.Ops) > 0 {
+		first = c.Ops[0]
+	}
+	key := fmt.Sprintf("hist/%s/%v/%d/%d/%d/%v", c.Type, c.BS, c.BG, len(c.Ops), nver, first.Off)
 	f, err := os.CreateTemp("", "c17case*.json")
 	if err != nil {
 		fmt.Fprintln(os.Stderr, err)
@@ -432,29 +571,32 @@ func runHist(c jcase) {
 	json.NewEncoder(f).Encode(c)
 	f.Close()
 	out, err := exec.Command(os.Args[0], "-child", f.Name(), "-outdir", os.TempDir()).Output()
-	var term string
+	var terms []string
 	for _, ln := range strings.Split(string(out), "\n") {
 		switch {
 		case strings.HasPrefix(ln, "TERM:"):
 			b, _ := base64.StdEncoding.DecodeString(ln[5:])
-			term = string(b)
+			terms = append(terms, string(b))
 		case strings.HasPrefix(ln, "COUNT:"):
 			run.Count(ln[6:])
 		}
 	}
-	if err != nil || term == "" {
+	if err != nil || len(terms) != nver {
 		run.Count("history:server-crashed")
-		cls := 8
-		for _, o := range c.Ops {
-			if o.Att != 0 {
-				cls = 8
-			}
-		}
-		term = fmt.Sprintf("(KCrash %s %d%%nat)", ccfg(c.BS, bpvOf[c.Type], c.BG, bgPattern(c.Type, c.BG)), cls)
+		run.Add("history", fmt.Sprintf("(KCrash %s 8%%nat)", ccfg(c.BS, bpvOf[c.Type], c.BG, bgPattern(c.Type, c.BG))), c, key)
+		return
 	}
-	run.Add("history", term, c, key)
+	for i, t := range terms {
+		if c.Only != 0 && c.Only != i+1 {
+			continue
+		}
+		cc := c
+		if nver > 1 {
+			cc.Only = i + 1
+		}
+		run.Add("history", t, cc, fmt.Sprintf("%s/v%d", key, i))
+	}
 }
-
 
 func valuesFor(bpv int32) dvid.DataValues {
 	switch bpv {
@@ -606,6 +748,18 @@ func genHistory(rng *lib.Rand, typ string, bs []int32, bg int, withROI, withBloc
 	reads(nil)
 	write(nil) // overlaps or abuts the first
 	reads(nil)
+	// overwrite a whole written box with special contents (nothing but background, zeros, one
+	// value, one voxel), as an ingest or a mutation, and read it back
+	for k := 0; k < 1+rng.Intn(2); k++ {
+		w := writes[rng.Intn(len(writes))]
+		fill := []string{"bg", "zero", "const", "single", "bg"}[rng.Intn(5)]
+		add(jop{Op: "postraw", Off: w.off, Size: w.size, Pat: pat(), Fill: fill, Mut: rng.Chance(0.3)})
+		add(jop{Op: "getraw", Shape: "0_1_2", Off: []int32{w.off[0] - 1, w.off[1], w.off[2]}, Size: []int32{w.size[0] + 2, w.size[1], 1 + int32(rng.Intn(int(w.size[2])))}})
+		add(jop{Op: "getblocks", Off: []int32{fdiv(w.off[0], bs[0]), fdiv(w.off[1], bs[1]), fdiv(w.off[2], bs[2])}, Span: w.size[0] / bs[0]})
+		if rng.Chance(0.5) {
+			add(jop{Op: "getraw", Shape: "0_2", Off: []int32{w.off[0], w.off[1] + int32(rng.Intn(int(w.size[1]))), w.off[2] - 1}, Size: []int32{w.size[0], w.size[2] + 1}})
+		}
+	}
 	add(jop{Op: "extents"})
 	{
 		w := writes[rng.Intn(len(writes))]
@@ -634,6 +788,31 @@ func genHistory(rng *lib.Rand, typ string, bs []int32, bg int, withROI, withBloc
 		reads(nil)
 		reads(roi)
 		add(jop{Op: "extents"})
+		// boxes entirely outside the ROI's Z layers, and an ROI without any span: a restricted
+		// write stores nothing, a restricted read shows nothing
+		{
+			w := writes[rng.Intn(len(writes))]
+			far := [][4]int32{{bo[2] + 20, bo[1], bo[0] - 1, bo[0] + 2}, {bo[2] - 30, bo[1], bo[0], bo[0]}}
+			o1 := jop{Op: "postraw", Off: w.off, Size: w.size, Pat: pat(), Mut: rng.Chance(0.3)}
+			o2 := jop{Op: "getraw", Shape: "0_1_2", Off: []int32{w.off[0] - 1, w.off[1] - 1, w.off[2]}, Size: []int32{w.size[0] + 1, w.size[1] + 1, 1 + int32(rng.Intn(int(w.size[2])))}}
+			if rng.Chance(0.5) {
+				o1.REmp = true
+			} else {
+				o1.Roi = far
+			}
+			add(o1)
+			add(o2) // unrestricted: nothing changed
+			o3 := o2
+			if rng.Chance(0.5) {
+				o3.REmp = true
+			} else {
+				o3.Roi = far
+			}
+			add(o3) // restricted: nothing inside
+			if rng.Chance(0.5) {
+				add(jop{Op: "getraw", Shape: "0_1", Off: []int32{w.off[0], w.off[1], w.off[2]}, Size: []int32{w.size[0], w.size[1]}, REmp: o3.REmp, Roi: o3.Roi})
+			}
+		}
 		if withAtt {
 			// reads through the ROI with attenuation, on a box that spans several block columns
 			w := writes[len(writes)-1]
@@ -649,6 +828,90 @@ func genHistory(rng *lib.Rand, typ string, bs []int32, bg int, withROI, withBloc
 		writes = append(writes, box{[]int32{start[0] * bs[0], start[1] * bs[1], start[2] * bs[2]}, []int32{span * bs[0], bs[1], bs[2]}})
 		add(jop{Op: "extents"})
 		reads(nil)
+	}
+	return c
+}
+
+// genDag: a write history over a small version DAG within one server uptime: the root writes and
+// is committed; siblings (next version / new branches) and grandchildren write the same box, a
+// sub-box, an overlapping or a far box, background or data, in interleaved order; at the end EVERY
+// version reports its extents and reads the play area back.
+func genDag(rng *lib.Rand, typ string, bs []int32, bg int) jcase {
+	c := jcase{Kind: "history", Type: typ, BS: bs, BG: bg}
+	pat := func() []int32 { return []int32{int32(rng.Intn(251)), int32(1 + rng.Intn(250))} }
+	bo := []int32{int32(rng.Intn(4)) - 2, int32(rng.Intn(4)) - 2, int32(rng.Intn(3)) - 1}
+	vox := func(b []int32) []int32 { return []int32{b[0] * bs[0], b[1] * bs[1], b[2] * bs[2]} }
+	// the boxes the versions choose from (block origin, size in blocks)
+	type bx struct{ o, n []int32 }
+	boxes := []bx{
+		{[]int32{bo[0], bo[1], bo[2]}, []int32{2, 1, 1}},     // B
+		{[]int32{bo[0], bo[1], bo[2]}, []int32{1, 1, 1}},     // sub-box of B
+		{[]int32{bo[0] + 1, bo[1], bo[2]}, []int32{2, 1, 1}}, // overlaps B
+		{[]int32{bo[0] - 2, bo[1] + 1, bo[2]}, []int32{1, 1, 2}},
+		{[]int32{bo[0], bo[1], bo[2]}, []int32{2, 1, 1}}, // B again
+	}
+	wr := func() jop {
+		b := boxes[rng.Intn(len(boxes))]
+		fill := ""
+		if rng.Chance(0.3) {
+			fill = []string{"bg", "zero", "const", "single"}[rng.Intn(4)]
+		}
+		if rng.Chance(0.15) && b.n[1] == 1 && b.n[2] == 1 {
+			return jop{Op: "postblocks", Off: b.o, Span: b.n[0], Pat: pat(), Fill: fill, Mut: rng.Chance(0.3)}
+		}
+		return jop{Op: "postraw", Off: vox(b.o), Size: vox(b.n), Pat: pat(), Fill: fill, Mut: rng.Chance(0.3)}
+	}
+	obs := func() []jop {
+		o := []jop{{Op: "extents"},
+			{Op: "getraw", Shape: "0_1_2", Off: []int32{vox(bo)[0] - 1, vox(bo)[1], vox(bo)[2]}, Size: []int32{3*bs[0] + 1, bs[1], 1 + int32(rng.Intn(int(bs[2])))}},
+			{Op: "getblocks", Off: []int32{bo[0] - 1, bo[1], bo[2]}, Span: 4}}
+		switch rng.Intn(3) {
+		case 0:
+			o = append(o, jop{Op: "getraw", Shape: "0_1", Off: []int32{vox(bo)[0] + 1, vox(bo)[1] - 1, vox(bo)[2] + int32(rng.Intn(int(bs[2])))}, Size: []int32{2 * bs[0], bs[1] + 2}})
+		case 1:
+			o = append(o, jop{Op: "getraw", Shape: "1_2", Off: []int32{vox(bo)[0] - 2*bs[0] + 1, vox(bo)[1] + bs[1], vox(bo)[2]}, Size: []int32{bs[1], 2 * bs[2]}})
+		default:
+			o = append(o, jop{Op: "subvol", Off: vox([]int32{bo[0] - 2, bo[1], bo[2]}), Size: vox([]int32{5, 2, 1})})
+		}
+		return o
+	}
+	if rng.Chance(0.7) {
+		c.Ops = append(c.Ops, wr())
+	}
+	c.Nodes = []vnode{{Parent: -1, Obs: obs()}}
+	hasChild := map[int]bool{}
+	isParent := map[int]bool{}
+	n := 2 + rng.Intn(3)
+	for i := 1; i <= n; i++ {
+		pa := 0
+		if i > 2 && rng.Chance(0.5) {
+			pa = 1 + rng.Intn(i-1)
+		}
+		nd := vnode{Parent: pa, Obs: obs()}
+		if !hasChild[pa] && rng.Chance(0.5) {
+			nd.Child = true
+			hasChild[pa] = true
+		}
+		isParent[pa] = true
+		if rng.Chance(0.6) {
+			nd.Ops = append(nd.Ops, wr())
+		}
+		c.Nodes = append(c.Nodes, nd)
+	}
+	// leaves keep writing, interleaved; a node that became a parent wrote only when created
+	for i := 1; i <= n; i++ {
+		if isParent[i] {
+			continue
+		}
+		k := 1 + rng.Intn(3)
+		for j := 0; j < k; j++ {
+			c.Nodes[i].Late = append(c.Nodes[i].Late, wr())
+			c.LateSeq = append(c.LateSeq, i)
+		}
+	}
+	for i := len(c.LateSeq) - 1; i > 0; i-- {
+		j := rng.Intn(i + 1)
+		c.LateSeq[i], c.LateSeq[j] = c.LateSeq[j], c.LateSeq[i]
 	}
 	return c
 }
@@ -690,9 +953,11 @@ func main() {
 		if err != nil || json.Unmarshal(b, &c) != nil {
 			os.Exit(2)
 		}
-		term, counts := histTerm(c)
+		terms, counts := histTerms(c)
 		dv.Close()
-		fmt.Println("TERM:" + base64.StdEncoding.EncodeToString([]byte(term)))
+		for _, term := range terms {
+			fmt.Println("TERM:" + base64.StdEncoding.EncodeToString([]byte(term)))
+		}
 		for _, k := range counts {
 			fmt.Println("COUNT:" + k)
 		}
@@ -768,6 +1033,15 @@ func main() {
 			dispatch(genHistory(rng, typ, bs, bg, (ti+rep)%2 == 0, (ti+rep)%3 != 1, false))
 			nh++
 		}
+	}
+	// write histories over version DAGs
+	for rep := 0; rep < 2*mul; rep++ {
+		typ := types[(rep*5+rng.Intn(2))%len(types)]
+		bg := 0
+		if rng.Chance(0.3) {
+			bg = 1 + rng.Intn(255)
+		}
+		dispatch(genDag(rng, typ, [][]int32{{4, 4, 2}, {4, 2, 3}, {2, 4, 4}}[rng.Intn(3)], bg))
 	}
 	// every voxel type with a non-zero Background, and attenuated reads through an ROI, in
 	// histories of their own (their failures have their own classes)
